@@ -35,6 +35,8 @@ type Interp struct {
 	freshN     int
 	lockDepth  int
 	syncMaps   map[*Value]*MapV
+	syncPools  map[*Value][]Value
+	poolForks  int
 	syncWrites int
 	mapOrder   int // 0 insertion order, 1 reversed
 	errRange   Value
